@@ -338,6 +338,28 @@ def recording(backend, log: list):
 # behavioural observables
 # ------------------------------------------------------------------------------------------------
 
+def guarded(fn, seconds: int = 10):
+    """outcome(fn) with a wall-clock limit; ('timeout', None) when it is exceeded"""
+    import signal
+    old = signal.signal(signal.SIGALRM, _alarm)
+    signal.alarm(seconds)
+    try:
+        return outcome(fn)
+    except _Timeout:
+        return ('timeout', None)
+    finally:
+        signal.alarm(0)
+        signal.signal(signal.SIGALRM, old)
+
+
+class _Timeout(BaseException):
+    pass
+
+
+def _alarm(_sig, _frm):
+    raise _Timeout()
+
+
 def outcome(fn):
     try:
         return ('ok', fn())
@@ -625,6 +647,10 @@ def judge_case(ctx: core.Ctx, rec: dict, answers: list) -> List[str]:
     ctx.count('%s:nodes' % label, len(case.nodes))
     if case.gen.shared_uses:
         ctx.count('%s:cases-with-shared-object' % label)
+    for n in case.nodes:
+        ctx.count('class:' + TAGS.get(type(n).__name__, '?'))
+        if n.identifier:
+            ctx.count('named-class:' + TAGS.get(type(n).__name__, '?'))
     expected_ids = sorted({n.identifier for n in case.named})
 
     if obs['store'][0] != 'ok':
@@ -709,8 +735,11 @@ def judge_case(ctx: core.Ctx, rec: dict, answers: list) -> List[str]:
             if not res or res[0] != 'ok':
                 continue
             for a in case.assign:
-                po = outcome(lambda: program_observables(r, a))
-                pl = outcome(lambda: program_observables(res[1], a))
+                po = guarded(lambda: program_observables(r, a))
+                pl = guarded(lambda: program_observables(res[1], a))
+                if 'timeout' in (po[0], pl[0]):
+                    ctx.count('%s:program-timeout' % label)
+                    continue
                 ctx.count('%s:program-%s' % (label, po[0] if po[0] == 'exc' else ('none' if po[1] is None else 'ok')))
                 if po[0] == 'exc':
                     ctx.count('%s:program-exc:%s' % (label, po[1]))
@@ -845,6 +874,12 @@ def witness(name: str):
     if name == 'nested_mapping_float':
         inner = P.MappingPT(P.FunctionPT('x*t', 1, 'X'), parameter_mapping={'x': 'y*0.1'})
         return [P.MappingPT(inner, parameter_mapping={'y': 'z + 0.30000000000000004'}, identifier='m')], [{'z': 1}]
+    if name == 'timetype_duration':
+        from qupulse.utils.types import TimeType
+        return [P.ConstantPT(TimeType.from_fraction(3, 2), {'A': 1}, identifier='c')], [{}]
+    if name == 'numpy_count':
+        import numpy
+        return [P.RepetitionPT(P.ConstantPT(1, {'A': 1}), numpy.int64(3), identifier='r')], [{}]
     if name == 'int_channel':
         return [P.TablePT({0: [(0, 1), (1, 2)]}, identifier='t')], [{}]
     if name == 'shared':
@@ -904,7 +939,8 @@ def small_scope(ctx) -> List[Case]:
                     P.TimeReversalPT(leaf(), identifier=ident()),
                 ]
             for r in roots:
-                cases.append(Built([r], assign=[{'d0': 1.5, 'v0': 0.1 + 0.2, 'n0': 2}]))
+                cases.append(Built([r], backend=['dict', 'fs', 'zip'][len(cases) % 3],
+                                   assign=[{'d0': 1.5, 'v0': 0.1 + 0.2, 'n0': 2}]))
         # MappingPT: every subset of its four optional dictionaries / lists
         for pm, mm, cm, cons in itertools.product((False, True), repeat=4):
             inner = P.ConstantPT('d0', {'A': 'v0'}, measurements=[('m', 0, 1)],
@@ -918,7 +954,7 @@ def small_scope(ctx) -> List[Case]:
                 kw['channel_mapping'] = {'A': 'Z'}
             if cons:
                 kw['parameter_constraints'] = ['v1 < 1000'] if pm else ['v0 < 1000']
-            cases.append(Built([P.MappingPT(inner, identifier=ident(), **kw)],
+            cases.append(Built([P.MappingPT(inner, identifier=ident(), **kw)], backend=['dict', 'fs', 'zip'][len(cases) % 3],
                                assign=[{'d0': 1.5, 'v0': 0.3, 'v1': 1 / 3}]))
     # AbstractPT: every subset of the declared interface
     keys = ['defined_channels', 'parameter_names', 'measurement_names', 'integral', 'duration']
@@ -1035,7 +1071,8 @@ def malformed(ctx: core.Ctx):
 def known_findings(ctx: core.Ctx):
     """replay the witnesses of the open findings; print the KNOWN-FINDING line while they reproduce"""
     listed = {kf.get('finding'): kf for kf in ctx.findings.for_property('C10')}
-    for fid, names in (('PF-C10b', ['derived_float', 'nested_mapping_float']), ('PF-C10c', ['int_channel'])):
+    for fid, names in (('PF-C10b', ['derived_float', 'nested_mapping_float']), ('PF-C10c', ['int_channel']),
+                       ('PF-C10f', ['timetype_duration']), ('PF-C10g', ['numpy_count'])):
         for name in names:
             with warnings.catch_warnings():
                 warnings.simplefilter('ignore')
@@ -1083,13 +1120,27 @@ def run_cases(ctx: core.Ctx, cases, label: str) -> List[str]:
 
 
 def random_cases(ctx: core.Ctx, n: int, stream: str, opts: dict):
+    import signal
     rng = ctx.fork(stream)
     for _ in range(n):
         seed = rng.getrandbits(48)
+        old = signal.signal(signal.SIGALRM, _alarm)
+        signal.alarm(20)
         try:
-            yield Case(seed, opts)
+            case = Case(seed, opts)
+            if sum(case.gen.size(r) for r in case.roots) > 400:
+                ctx.count('generator-rejected:too-large')
+                continue
+        except _Timeout:
+            ctx.count('generator-rejected:timeout')
+            continue
         except Exception as e:  # noqa  (a generated tree the constructors reject: not a case)
             ctx.count('generator-rejected:' + type(e).__name__)
+            continue
+        finally:
+            signal.alarm(0)
+            signal.signal(signal.SIGALRM, old)
+        yield case
 
 
 def _worker(args):
